@@ -1629,7 +1629,7 @@ Qed.
 
 Lemma demo_doc_facts :
   emit V31 demo_u = Some demo_doc /\
-  keys (doc_comps demo_doc) = [s "Kind"; s "Color"; s "Base"; s "Far"; s "Node"; s "Rfc7807Error"; s "Name"] /\
+  keys (doc_comps demo_doc) = [s "Color"; s "Kind"; s "Base"; s "Far"; s "Node"; s "Rfc7807Error"; s "Name"] /\
   prop_C07 demo_u demo_doc = true /\ prop_C08 (u_cfg demo_u) demo_doc = true /\
   (* the oracles reject damaged documents *)
   prop_C07 demo_u (mkDoc (doc_title demo_doc) (doc_version demo_doc) (doc_servers demo_doc) (doc_schemes demo_doc)
@@ -1722,3 +1722,23 @@ Lemma schema_of_agrees :
             TSlice (ty "Node"); TSlice (TPtr (ty "Node")); TSlice (TSlice Tint); TPtr (TSlice TTime);
             TNamed (s "other") (s "Far") ] = true.
 Proof. vm_compute. reflexivity. Qed.
+
+Lemma f18_shape_refuted :
+  decl_by_text (nth 3 demo_decls color_decl) (component V30 (nth 3 demo_decls color_decl)) = false /\
+  decl_by_text (nth 3 demo_decls color_decl) (component V31 (nth 3 demo_decls color_decl)) = true.
+Proof. vm_compute. split; reflexivity. Qed.
+
+(* the file is written only when gleece's validators and the library validators accepted the
+   very document that is written *)
+Theorem cmd_wrote_inv lib_ok v u d :
+  cmd lib_ok v u = Wrote d -> gleece_accepts u = true /\ emit v u = Some d /\ lib_ok d = true.
+Proof.
+  unfold cmd. destruct (gleece_accepts u); cbn [negb]; [|discriminate].
+  destruct (emit v u) as [d0|]; [|discriminate]. destruct (lib_ok d0) eqn:E; [|discriminate].
+  intros H. inversion H; subst. auto.
+Qed.
+
+Lemma demo_cmd :
+  cmd (lib_model_ok_v V31) V31 demo_u = Wrote demo_doc /\ cmd (fun _ => false) V31 demo_u = Failed /\
+  cmd (lib_model_ok_v V31) V31 (f9_u "oneof=red blue") <> Failed.
+Proof. vm_compute. repeat split. discriminate. Qed.
